@@ -225,3 +225,32 @@ Proof.
   { unfold wire_name in Hw. apply andb_prop in Hw as [Hw _]. eexists; exact Hw. }
   destruct b; [| |contradiction]; unfold serve; apply serve_v1_ok; exact Hp.
 Qed.
+
+(* ------------------------------------------------------------------------------------------
+   NOTES for C13_no_panic_v2 (not proved).  Panic sources of serve over reader_v2, and what is
+   known about each:
+   - reverse_zone_name / rev_into on the query name, its DS parent, and NS/MX targets: none on
+     wire names (Proofs/Reverse.reverse_zone_name_pack, rev_into_key_buffer, for_each_rr_v2_val);
+     targets come from parse_name, so they are wire names (needs: parse_name l = Some (n, r) ->
+     wnP n, by induction on parse_name_fuel), and lower_bytes keeps wnP (wire_name_lower above).
+   - callbacks: recovered by rdb.ForEach (Panicked status, never res.Panic) - nothing to prove.
+   - find_loop (LookupV2): needs an invariant  I(rev, kbuf, klen, qlen) :=
+       rev = rpack n  /\  1 <= qlen <= nlen rev  /\  qlen - 1 is a label boundary of rev  /\
+       nlen kbuf = nlen rev + 4  /\  2 + qlen + 2 <= klen <= nlen kbuf  /\
+       firstn (2 + qlen - 1) kbuf = marker ++ firstn (qlen - 1) rev
+     It gives: upd / copy_at / the reslice succeed; slice_to rev (qlen - 1) succeeds.
+   - the found key k: with  wf_store_v2 st := every key with prefix marker is
+       marker ++ rpack m ++ [a; b] for a wf name m, or the features key (length 11) ,
+     slice kk 2 (nlen kk - 2) and slice_to fl (nlen fl - 1) succeed (nlen kk >= 5).
+   - get_length_without_last_label (rpack n) qlen on a boundary: idx stays below qlen - 1 < nlen rev
+     (induction over the labels; byte arithmetic does not wrap because nlen rev <= 255).
+   - find_common_longest_prefix (rpack n) fl: for fl = rpack m' both strings are sequences of
+     complete labels, so whenever the length bytes agree the inner comparison stays inside both;
+     for the features key fl = "_featur" the first bytes differ (95 > 63) and the loop returns 0.
+     Statement: forall n m' wf, exists c, find_common_longest_prefix (rpack n) (rpack m') = Val c
+     /\ c is a common label boundary  /\  c + 1 <= qlen when k <= probe (needs seek_prev_le and the
+     order lemma of SortedStore's notes (1)), which also re-establishes I for the next iteration and
+     shows the fuel (length q + 2) suffices because qlen strictly decreases.
+   - is_authoritative_v2: zcl <= nlen q from I;  find_answer_v2's pre_fa_loop: i - 1 and
+     [i, i + ll) stay inside rev because i runs over label boundaries between len and last.
+   ------------------------------------------------------------------------------------------ *)
